@@ -139,5 +139,44 @@ func genC18(e *emitter, tier string, seed uint64) map[string]interface{} {
 			}
 		}
 	}
+	// the registry as a history: a version registered later is accepted and ADOPTED under the handshake's number (also when the
+	// implementation registered under it reports another number of its own); a version withdrawn again (Register(v, nil)) is
+	// unregistered for lookup and for Context.Handshake alike. The standard registrations are restored afterwards.
+	{
+		v2impl, _ := protocol.GetProtocol(2)
+		note := func(what string) int { return e.op("ids.note registry "+what, "ok", "registry", true) }
+		hs := func(v uint8) (bool, uint8) {
+			ctx := protocol.NewContext(context.Background(), protocol.ClientSide)
+			err := ctx.Handshake(&protocol.Handshake{Version: v, Codec: protocol.CodecProtobuf, Platform: protocol.PlatformOpenapi})
+			return err == nil, ctx.Version
+		}
+		for _, v := range []uint8{3, 7, 15} {
+			if _, err := protocol.GetProtocol(v); err == nil {
+				continue
+			}
+			protocol.Register(v, v2impl)
+			idx := note(fmt.Sprintf("register %d", v))
+			if _, err := protocol.GetProtocol(v); err != nil {
+				e.fail(idx, "getProtocol_unregistered", fmt.Sprintf("version %d was registered and its lookup fails", v))
+			}
+			if ok, got := hs(v); !ok || got != v {
+				e.fail(idx, "ctx_handshake_adopts", fmt.Sprintf("handshake with the newly registered version %d: accepted=%v, context version %d (want accepted, version %d)", v, ok, got, v))
+			}
+			protocol.Register(v, nil)
+			idx = note(fmt.Sprintf("withdraw %d", v))
+			if pr, err := protocol.GetProtocol(v); err == nil || pr != nil {
+				e.fail(idx, "getProtocol_unregistered", fmt.Sprintf("version %d was withdrawn (Register(v, nil)) and its lookup still succeeds (protocol nil=%v)", v, pr == nil))
+			}
+			if ok, got := hs(v); ok || got != 0 {
+				e.fail(idx, "ctx_handshake_iff", fmt.Sprintf("handshake with the withdrawn version %d: accepted=%v, context version %d (want rejected, context untouched)", v, ok, got))
+			}
+		}
+		for _, v := range []uint8{1, 2} {
+			if ok, got := hs(v); !ok || got != v {
+				idx := note("standard registrations intact")
+				e.fail(idx, "ctx_handshake_iff", fmt.Sprintf("after the registry history version %d: accepted=%v version=%d", v, ok, got))
+			}
+		}
+	}
 	return map[string]interface{}{"exhaustive": true}
 }
